@@ -5,42 +5,43 @@ C10 — The frontend never panics on any query text.
 returns a compiled query or a typed error; it never panics."
 
 The text → AST GraphQL parser is an external crate and is not modelled; the model's input is the
-abstract document it produces (`TF.FE.Doc`).  Stage 1 (this part of the file): the parse layer
-`graphql_query::query::parse_document` (`TF.FE.parseDocument`).
+abstract document it produces (`TF.FE.Doc`).
 
-Full statement (FALSE on the pinned tree, witness `parse_total_false` below):
+STATE OF THE CODE THIS FILE IS ABOUT: /repo with the six repairs of F-6, F-7, F-8, F-12, F-C10-1,
+F-C10-3 applied (hooks/fix-*.diff).  The theorems and witnesses about the tree before the repairs
+are kept as history comments at the end of each part.
 
-    theorem parse_total : ∀ doc : Doc, ∀ s, parseDocument doc ≠ .panic s
+Stage 1: the parse layer `graphql_query::query::parse_document` (`TF.FE.parseDocument`).
+* `parse_total` — for every document the text parser can produce (`ParserProducible`: a `Multiple`
+  operation map is not empty, an operation's selection set is not empty — read off the grammar
+  `selection_set = "{" selection+ "}"` and `parse_query`), `parse_document` does not panic.  The
+  hypothesis cannot be dropped: `parse_document` is a public function on `ExecutableDocument`, and
+  the two directly constructible structures the grammar excludes reach `unreachable!` / an index
+  (`empty_map_witness`, `empty_selection_witness`, `parse_panic_sites`).
 
-What is proved instead:
-* `parse_panic_sites`   — of the 14 panic sites of query.rs / directives.rs, only three can fire,
-                          all inside `try_get_query_root`, each with its condition; F-6 exactly:
-                          `parse_panics_f6_iff`;
-* two of the three need an `ExecutableDocument` that the text grammar cannot produce
-  (`selection_set = "{" selection+ "}"`, and a `Multiple` map is created on its first insertion):
-  they are excluded by `ParserProducible`;
-* the third is the defect F-6 (a document with exactly two named operations):
-  `parse_total_partial : ParserProducible doc → NoKnownParseTrigger doc → no panic`.
+Stage 2: `frontend::parse` minus the text parser, `TF.FE.compile S doc` = `parse_document`,
+`make_ir_for_query` (validation.rs, mod.rs, filters.rs, tags.rs, outputs.rs, util.rs) and the
+`IndexedQuery` conversion's `get_output_type`, against a schema view `S`.
 
-Stage 2 (second part of the file): `frontend::parse` minus the text parser, `TF.FE.compile S doc`
-= `parse_document`, `make_ir_for_query` (validation.rs, mod.rs, filters.rs, tags.rs, outputs.rs,
-util.rs) and the `IndexedQuery` conversion's `get_output_type`, against a schema view `S`.
-
-Full statement (FALSE on the pinned tree, nine witness theorems below):
+Full statement (still FALSE, three witness theorems below):
 
     theorem frontend_total : ValidSchemaView S → ParserProducible doc → ∀ s, compile S doc ≠ .panic s
 
 What is proved instead:
-* `frontend_panic_sites` — of the 61 modelled panic sites only the nine of `KnownSite` can fire
-  (F-6, F-7, F-8, F-12, N-1 … N-4, N-6); in particular every `unwrap/expect/assert!/index` of
+* `frontend_panic_sites` — of the 61 modelled panic sites only the three of `KnownSite` can fire
+  (F-C10-2 enum-valued edge argument, F-C10-4 output under too many folds, F-C10-6 `one_of` on a
+  30-level list); every other `unwrap/expect/assert!/index/unreachable!/unimplemented!` is
+  unreachable, in particular the index `ir_vertices[&vid]` of mod.rs:399/405 after the repair of
+  F-C10-3 (every entry of a component's output map refers to one of its vertices or to a vertex of
+  one of its folds: the `tops` clause of `FillPost`), all of
   `tags.rs`, `outputs.rs`, `util.rs` (the `ComponentPath` / `TagHandler` / `OutputHandler` stack
-  discipline, including the stale entries `make_fold`'s early `?` return leaves behind: F-13 is
-  not a defect), the path bookkeeping and the asserts of `validation.rs`, and all but one `unwrap`
-  of `filters.rs` are unreachable;
-* `frontend_total_partial` — no panic at all outside the known defect classes;
-* each class has a witness (`*_witness`), and N-5 (a schema that declares an edge parameter twice,
-  accepted by `Schema::new`) is a witness that `ValidSchemaView`'s `paramsDistinct` clause is
-  needed (`paramDuplicate_witness`).
+  discipline incl. the stale entries `make_fold`'s early `?` return leaves behind), `validation.rs`
+  and `filters.rs`, the `unimplemented!` of mod.rs:1111 (the parse layer never builds a
+  re-transform: `parseDocument_noRetr`) and the `unreachable!` of mod.rs:130;
+* `frontend_total_partial` — no panic at all outside those classes;
+* `frontend_panics_n2_only_if` — F-C10-2 needs an enum literal among a field's arguments;
+* N-5 / F-C10-5 (a schema that declares an edge parameter twice, accepted by `Schema::new`) is the
+  witness that `ValidSchemaView`'s `paramsDistinct` clause is needed (`paramDuplicate_witness`).
 -/
 import TrustfallModel.Proofs.FrontendTop
 
@@ -59,30 +60,6 @@ instance (doc : Doc) : Decidable (ParserProducible doc) := by
   unfold ParserProducible
   split <;> infer_instance
 
-/-- The confirmed defect class of the parse layer, **F-6**: no fragment definitions and exactly
-two (named) operations. -/
-def F6Trigger (doc : Doc) : Prop :=
-  doc.frags = [] ∧ ∃ a b, doc.ops = .multiple [a, b]
-
-instance (doc : Doc) : Decidable (F6Trigger doc) := by
-  unfold F6Trigger
-  refine @instDecidableAnd _ _ ?_ ?_
-  · cases doc.frags <;> infer_instance
-  · match doc.ops with
-    | .single _ => exact isFalse (by rintro ⟨a, b, h⟩; cases h)
-    | .multiple [] => exact isFalse (by rintro ⟨a, b, h⟩; cases h)
-    | .multiple [_] => exact isFalse (by rintro ⟨a, b, h⟩; cases h)
-    | .multiple [a, b] => exact isTrue ⟨a, b, rfl⟩
-    | .multiple (_ :: _ :: _ :: _) => exact isFalse (by rintro ⟨a, b, h⟩; cases h)
-
-/-- The guard of the partial theorem: the document is not in a known defect class. -/
-def NoKnownParseTrigger (doc : Doc) : Prop := ¬ F6Trigger doc
-
-instance (doc : Doc) : Decidable (NoKnownParseTrigger doc) := by
-  unfold NoKnownParseTrigger; infer_instance
-
-/-! ### Witnesses (each replayed against the real `parse_document` by the harness corpus) -/
-
 /-- `{ Zero { value @output } }` as an operation. -/
 def opZero : Operation :=
   ⟨.query, 0, [], [.field ⟨none, "Zero", [], []⟩ [.field ⟨none, "value", [], [⟨"output", []⟩]⟩ []]]⟩
@@ -90,20 +67,12 @@ def opZero : Operation :=
 /-- `query A { Zero { value @output } } query B { Zero { value @output } }`. -/
 def docTwoOperations : Doc := ⟨.multiple [("A", opZero), ("B", opZero)], []⟩
 
-/-- **F-6**: a document with exactly two operations panics (`nth(2)` on a two-element iterator,
-query.rs:132). -/
-theorem f6_witness : parseDocument docTwoOperations = .panic .opsNth2 :=
-  Res.cls_eq_panic.mp (by decide)
-
-/-- … so the full statement is false. -/
-theorem parse_total_false : ¬ ∀ doc : Doc, ∀ s, parseDocument doc ≠ .panic s :=
-  fun h => h docTwoOperations .opsNth2 f6_witness
-
-/-- Three operations are *not* in the class: the error is returned. -/
+/-- Regression for F-6: two operations are now refused with the error, like three. -/
+example : (parseDocument docTwoOperations).cls = .err .MultipleOperationsInDocument := by decide
 example : (parseDocument ⟨.multiple [("A", opZero), ("B", opZero), ("C", opZero)], []⟩).cls
     = .err .MultipleOperationsInDocument := by decide
 /-- One named operation is accepted. -/
-example : (parseDocument ⟨.multiple [("A", opZero)], []⟩).panicSite? = none := by decide
+example : (parseDocument ⟨.multiple [("A", opZero)], []⟩).cls = .ok := by decide
 /-- Two operations *and* a fragment definition: the fragment error comes first. -/
 example : (parseDocument ⟨.multiple [("A", opZero), ("B", opZero)], [⟨"F", "Number", [], []⟩]⟩).cls
     = .err .DocumentContainsNonInlineFragments := by decide
@@ -118,41 +87,19 @@ theorem empty_selection_witness :
 
 /-! ### The theorems -/
 
-/-- Only three of the parse layer's panic sites can fire, with these conditions. -/
+/-- Only two of the parse layer's 14 panic sites can fire, and only on structures the text grammar
+excludes. -/
 theorem parse_panic_sites {doc : Doc} {s : Site} (h : parseDocument doc = .panic s) :
     doc.frags = [] ∧
-    ((s = .opsNth2 ∧ doc.opCount = 2 ∧ ∃ l, doc.ops = .multiple l) ∨
-     (s = .opsMultipleEmpty ∧ doc.ops = .multiple []) ∨
+    ((s = .opsMultipleEmpty ∧ doc.ops = .multiple []) ∨
      (s = .rootItemsIndex ∧ ∃ op, doc.soleOperation? = some op ∧ op.sels = [])) :=
   tryGetQueryRoot_panic (parseDocument_panic h)
 
-/-- F-6 exactly: `parse_document` panics at query.rs:132 iff there is no fragment definition and
-there are exactly two operations. -/
-theorem parse_panics_f6_iff (doc : Doc) : parseDocument doc = .panic .opsNth2 ↔ F6Trigger doc := by
-  constructor
-  · intro h
-    obtain ⟨hfr, hcase⟩ := parse_panic_sites h
-    rcases hcase with ⟨_, hcount, l, hl⟩ | ⟨hs, _⟩ | ⟨hs, _⟩
-    · refine ⟨hfr, ?_⟩
-      simp only [Doc.opCount, hl] at hcount
-      match l, hcount with
-      | [a, b], _ => exact ⟨a, b, hl⟩
-    · cases hs
-    · cases hs
-  · rintro ⟨hfr, a, b, hops⟩
-    obtain ⟨ops, frags⟩ := doc
-    simp only at hfr hops
-    subst hfr hops
-    simp [parseDocument, tryGetQueryRoot]
-
-/-- The parse layer is total on every document a query text can produce, outside F-6. -/
-theorem parse_total_partial {doc : Doc} (hp : ParserProducible doc) (hk : NoKnownParseTrigger doc) :
-    ∀ s, parseDocument doc ≠ .panic s := by
+/-- The parse layer is total on every document a query text can produce. -/
+theorem parse_total {doc : Doc} (hp : ParserProducible doc) : ∀ s, parseDocument doc ≠ .panic s := by
   intro s h
   obtain ⟨hfr, hcase⟩ := parse_panic_sites h
-  rcases hcase with ⟨hs, _, _⟩ | ⟨_, hops⟩ | ⟨_, op, hop, hsel⟩
-  · subst hs
-    exact hk ((parse_panics_f6_iff doc).mp h)
+  rcases hcase with ⟨_, hops⟩ | ⟨_, op, hop, hsel⟩
   · unfold ParserProducible at hp
     rw [hops] at hp
     exact hp.1 rfl
@@ -169,18 +116,22 @@ theorem parse_total_partial {doc : Doc} (hp : ParserProducible doc) (hk : NoKnow
       exact hp.2 (n, op) (by simp) hsel
     · cases hop
 
-/-! Non-vacuity: the guards hold of ordinary documents and the theorem applies to them. -/
-example : ParserProducible ⟨.single opZero, []⟩ ∧ NoKnownParseTrigger ⟨.single opZero, []⟩ := by decide
-example : ParserProducible docTwoOperations ∧ ¬ NoKnownParseTrigger docTwoOperations := by decide
+/-! Non-vacuity. -/
+example : ParserProducible ⟨.single opZero, []⟩ ∧ ParserProducible docTwoOperations := by decide
+
+/-! History (tree before `fix: a document with exactly two operations …`, F-6): `nth(2)` instead of
+`nth(1)`.  Then proved: `f6_witness : parseDocument docTwoOperations = .panic .opsNth2`,
+`parse_total_false`, `parse_panics_f6_iff : parseDocument doc = .panic .opsNth2 ↔ (doc.frags = [] ∧
+∃ a b, doc.ops = .multiple [a, b])`, and `parse_total_partial` under the extra guard "not exactly
+two operations". -/
 
 /-! ## Stage 2: the frontend proper -/
 
-/-- The guard of the partial theorem: the document does not run into one of the known defect
-classes.  F-6, F-7, N-1 and N-2 are delimited syntactically (`parse_panics_f6_iff`,
-`frontend_panics_f7_only_if`, `frontend_panics_n1_only_if`, `frontend_panics_n2_only_if`); the
-other classes (F-8, F-12, N-3, N-4, N-6) are delimited by the model's own panic site —
-the decidable statement "`compile S doc` does not panic at that site" — which the harness
-replays against the real code for every generated document. -/
+/-- The guard of the partial theorem: the document does not run into one of the remaining defect
+classes.  F-C10-2 has a proved syntactic necessary condition
+(`frontend_panics_n2_only_if`); the classes are otherwise delimited by the model's own panic site —
+the decidable statement "`compile S doc` does not panic at that site" — which the harness replays
+against the real code for every generated document. -/
 def NoKnownTrigger (S : SchemaView) (doc : Doc) : Prop :=
   ∀ s, KnownSite s → compile S doc ≠ .panic s
 
@@ -192,66 +143,43 @@ instance (S : SchemaView) (doc : Doc) : Decidable (NoKnownTrigger S doc) :=
   | .ok _ => isTrue (fun s' _ h' => by rw [h] at h'; cases h')
   | .err _ => isTrue (fun s' _ h' => by rw [h] at h'; cases h')
 
-/-- Of all modelled panic sites, only those of `KnownSite` can fire on a document produced by
-the text parser, against a schema satisfying `ValidSchemaView`. -/
+/-- Of all modelled panic sites, only those of `KnownSite` can fire on a document produced by the
+text parser, against a schema satisfying `ValidSchemaView`. -/
 theorem frontend_panic_sites {S : SchemaView} (hS : ValidSchemaView S) {doc : Doc}
     (hp : ParserProducible doc) {s : Site} (h : compile S doc = .panic s) : KnownSite s := by
+  have hparse : ∀ s', s = s' → (s' = .opsMultipleEmpty ∨ s' = .rootItemsIndex) → False := by
+    intro s' hs' hcase
+    subst hs'
+    have : parseDocument doc = .panic s := by
+      unfold compile at h
+      cases hpd : parseDocument doc with
+      | panic s' => rw [hpd] at h; cases h; rfl
+      | err e => rw [hpd] at h; cases h
+      | ok q =>
+        rw [hpd] at h
+        have := ((makeIrForQuery_sat hS (parseDocument_wf hpd) (parseDocument_noRetr hpd)).panic_site h).1
+        exfalso
+        rcases hcase with hc | hc <;> (subst hc; exact absurd this (by decide))
+    exact parse_total hp _ this
   rcases compile_panic_known hS h with hk | hs | hs
   · exact hk
-  · subst hs
-    exfalso
-    have hparse : parseDocument doc = .panic .opsMultipleEmpty := by
-      unfold compile at h
-      cases hpd : parseDocument doc with
-      | panic s' => rw [hpd] at h; cases h; rfl
-      | err e => rw [hpd] at h; cases h
-      | ok q =>
-        rw [hpd] at h
-        have := (makeIrForQuery_sat hS (parseDocument_wf hpd)).panic_site h
-        exact absurd this.1 (by decide +kernel)
-    exact parse_total_partial hp (fun hf6 => by
-      have := (parse_panics_f6_iff doc).mpr hf6
-      rw [hparse] at this; cases this) _ hparse
-  · subst hs
-    exfalso
-    have hparse : parseDocument doc = .panic .rootItemsIndex := by
-      unfold compile at h
-      cases hpd : parseDocument doc with
-      | panic s' => rw [hpd] at h; cases h; rfl
-      | err e => rw [hpd] at h; cases h
-      | ok q =>
-        rw [hpd] at h
-        have := (makeIrForQuery_sat hS (parseDocument_wf hpd)).panic_site h
-        exact absurd this.1 (by decide +kernel)
-    exact parse_total_partial hp (fun hf6 => by
-      have := (parse_panics_f6_iff doc).mpr hf6
-      rw [hparse] at this; cases this) _ hparse
+  · exact (hparse s rfl (Or.inl hs)).elim
+  · exact (hparse s rfl (Or.inr hs)).elim
 
-/-- The frontend is total outside the known defect classes. -/
+/-- The frontend is total outside the remaining defect classes. -/
 theorem frontend_total_partial {S : SchemaView} (hS : ValidSchemaView S) {doc : Doc}
     (hp : ParserProducible doc) (hk : NoKnownTrigger S doc) : ∀ s, compile S doc ≠ .panic s :=
   fun s h => hk s (frontend_panic_sites hS hp h) h
 
-/-- N-1 is reached only through a root field called `__typename`. -/
-theorem frontend_panics_n1_only_if {S : SchemaView} (hS : ValidSchemaView S) {doc : Doc}
-    (h : compile S doc = .panic .rootEdgeLookup) :
-    ∃ q, parseDocument doc = .ok q ∧ q.rootField.name = TYPENAME :=
-  compile_rootEdgeLookup hS h
-
-/-- F-7 is reached only if some field carries `@fold @transform … @transform`. -/
-theorem frontend_panics_f7_only_if {S : SchemaView} (hS : ValidSchemaView S) {doc : Doc}
-    (h : compile S doc = .panic .retransform) :
-    ∃ q, parseDocument doc = .ok q ∧ hasRetrNode q.rootField = true :=
-  compile_retransform hS h
-
-/-- N-2 is reached only if some field has an enum literal among its arguments. -/
+/-- N-2 (F-C10-2) is reached only if some field has an enum literal among its arguments. -/
 theorem frontend_panics_n2_only_if {S : SchemaView} (hS : ValidSchemaView S) {doc : Doc}
     (h : compile S doc = .panic .enumArgument) :
     ∃ q, parseDocument doc = .ok q ∧
       (argsHaveEnum q.rootConnection.arguments = true ∨ hasEnumNode q.rootField = true) :=
   compile_enumArgument hS h
 
-/-! ### Witnesses (each is in `corpus/C10.cases` as text and replayed against the real code) -/
+/-! ### Witnesses and regressions (each is in `corpus/C10.cases` as text and replayed against the
+real code) -/
 
 def tyInt : FTy := ⟨"Int", true, []⟩
 
@@ -277,42 +205,41 @@ def nestFolds : Nat → Selection → Selection
   | 0, s => s
   | k + 1, s => fld "next" [dFold] [nestFolds k s]
 
-/-- **F-7** `{ A { next @fold @transform(op: "count") @transform(op: "count") } }`. -/
-theorem f7_witness :
-    compile miniSchema (single (fld "A" [] [fld "next" [dFold, dCount, dCount]])) = .panic .retransform :=
-  Res.cls_eq_panic.mp (by decide +kernel)
+/-- Regression for F-7 `{ A { next @fold @transform(op: "count") @transform(op: "count") } }`:
+refused by the parse layer (was `.panic .retransform`, `f7_witness`). -/
+example : (compile miniSchema (single (fld "A" [] [fld "next" [dFold, dCount, dCount]]))).cls
+    = .err (.parse .UnsupportedDirectivePosition) := by decide +kernel
 
-/-- **F-8** `{ A { value { ... on A { __typename } } } }`. -/
-theorem f8_witness :
-    compile miniSchema (single (fld "A" [] [fld "value" [] [.inline (some "A") [] [fld "__typename"]]]))
-      = .panic .coercePropertyIndex :=
-  Res.cls_eq_panic.mp (by decide +kernel)
+/-- Regression for F-8 `{ A { value { ... on A { __typename } } } }` (was
+`.panic .coercePropertyIndex`, `f8_witness`). -/
+example : (compile miniSchema (single (fld "A" [] [fld "value" [] [.inline (some "A") [] [fld "__typename"]]]))).cls
+    = .err (.frontend [.CannotCoerceNonInterfaceType]) := by decide +kernel
 
-/-- **F-12** `{ A { flag @filter(op: "<", value: ["$x"]) } }` (`flag: Boolean`). -/
-theorem f12_witness :
-    compile miniSchema (single (fld "A" [] [fld "flag" [dFilter "<" "$x"]])) = .panic .asTagUnwrap :=
-  Res.cls_eq_panic.mp (by decide +kernel)
+/-- Regression for F-12 `{ A { flag @filter(op: "<", value: ["$x"]) } }` (`flag: Boolean`; was
+`.panic .asTagUnwrap`, `f12_witness`). -/
+example : (compile miniSchema (single (fld "A" [] [fld "flag" [dFilter "<" "$x"]]))).cls
+    = .err (.frontend [.OrderingFilterOperationOnNonOrderableSubject]) := by decide +kernel
 
-/-- … but not with `=`: the defect needs an ordering operator. -/
+/-- `=` on a Boolean property is fine. -/
 example : (compile miniSchema (single (fld "A" [] [fld "flag" [dFilter "=" "$x", dOutput]]))).cls = .ok := by
   decide +kernel
 
-/-- **N-1** `{ __typename }`. -/
-theorem n1_witness : compile miniSchema (single (fld "__typename")) = .panic .rootEdgeLookup :=
-  Res.cls_eq_panic.mp (by decide +kernel)
+/-- Regression for N-1 / F-C10-1 `{ __typename }` (was `.panic .rootEdgeLookup`, `n1_witness`). -/
+example : (compile miniSchema (single (fld "__typename"))).cls
+    = .err (.frontend [.PropertyMetaFieldUsedAsEdge]) := by decide +kernel
 
 /-- **N-2** `{ A(max: FOO) }`. -/
 theorem n2_witness :
     compile miniSchema (single (fld "A" [] [] [⟨"max", .enum "FOO"⟩])) = .panic .enumArgument :=
   Res.cls_eq_panic.mp (by decide +kernel)
 
-/-- **N-3** `{ A { value @output(name: "a") next @fold @transform(op: "count") @output(name: "a") } }`. -/
-theorem n3_witness :
-    compile miniSchema (single (fld "A" [] [fld "value" [dOutputNamed "a"],
-      fld "next" [dFold, dCount, dOutputNamed "a"]])) = .panic .dupOutputVertexIndex :=
-  Res.cls_eq_panic.mp (by decide +kernel)
+/-- Regression for N-3 / F-C10-3 `{ A { value @output(name: "a") next @fold @transform(op: "count")
+@output(name: "a") } }` (was `.panic .dupOutputVertexIndex`, `n3_witness`). -/
+example : (compile miniSchema (single (fld "A" [] [fld "value" [dOutputNamed "a"],
+    fld "next" [dFold, dCount, dOutputNamed "a"]]))).cls
+    = .err (.frontend [.MultipleOutputsWithSameName]) := by decide +kernel
 
-/-- … while two *property* outputs under one name are reported as the error they are. -/
+/-- Two *property* outputs under one name: the same error. -/
 example : (compile miniSchema (single (fld "A" [] [fld "value" [dOutputNamed "a"],
     fld "flag" [dOutputNamed "a"]]))).cls = .err (.frontend [.MultipleOutputsWithSameName]) := by decide +kernel
 
@@ -335,7 +262,7 @@ theorem n6_witness :
 theorem frontend_total_false :
     ¬ ∀ (S : SchemaView) (doc : Doc), ValidSchemaView S → ParserProducible doc →
       ∀ s, compile S doc ≠ .panic s :=
-  fun h => h miniSchema _ miniSchema_valid (by decide +kernel) _ f7_witness
+  fun h => h miniSchema _ miniSchema_valid (by decide +kernel) _ n2_witness
 
 /-- **N-5**: `type Root { A(x: Int, x: Int): A }  type A { v: Int }` is accepted by `Schema::new`
 but is not a `ValidSchemaView`; every query through `A` panics at mod.rs:195. -/
@@ -353,26 +280,24 @@ example : NoKnownTrigger miniSchema (single (fld "A" [] [fld "value" [dOutput, d
     fld "next" [dFold, dCount, dOutputNamed "n"] [fld "flag" [dFilter "=" "$f"]]])) := by decide +kernel
 example : (compile miniSchema (single (fld "A" [] [fld "value" [dOutput, dFilter "<" "$x"],
     fld "next" [dFold, dCount, dOutputNamed "n"] [fld "flag" [dFilter "=" "$f"]]]))).cls = .ok := by decide +kernel
-example : ¬ NoKnownTrigger miniSchema (single (fld "__typename")) := by decide +kernel
+example : ¬ NoKnownTrigger miniSchema (single (fld "A" [] [] [⟨"max", .enum "FOO"⟩])) := by
+  decide +kernel
+
+/-! History (tree before the six repairs): `KnownSite` had nine sites; additionally proved then:
+`f7_witness`, `f8_witness`, `f12_witness`, `n1_witness`, `n3_witness` (the panics the regression
+examples above used to be), `frontend_panics_f7_only_if` (F-7 only with `@fold @transform …
+@transform`) and `frontend_panics_n1_only_if` (N-1 only for a root field `__typename`). -/
 
 end TF.C10
 
-#print axioms TF.C10.f6_witness
-#print axioms TF.C10.parse_total_false
 #print axioms TF.C10.parse_panic_sites
-#print axioms TF.C10.parse_panics_f6_iff
-#print axioms TF.C10.parse_total_partial
+#print axioms TF.C10.parse_total
+#print axioms TF.C10.empty_map_witness
+#print axioms TF.C10.empty_selection_witness
 #print axioms TF.C10.frontend_panic_sites
 #print axioms TF.C10.frontend_total_partial
-#print axioms TF.C10.frontend_panics_n1_only_if
-#print axioms TF.C10.frontend_panics_f7_only_if
 #print axioms TF.C10.frontend_panics_n2_only_if
-#print axioms TF.C10.f7_witness
-#print axioms TF.C10.f8_witness
-#print axioms TF.C10.f12_witness
-#print axioms TF.C10.n1_witness
 #print axioms TF.C10.n2_witness
-#print axioms TF.C10.n3_witness
 #print axioms TF.C10.n4_witness
 #print axioms TF.C10.n6_witness
 #print axioms TF.C10.frontend_total_false
